@@ -437,28 +437,28 @@ Section GenericRuns.
   Hypothesis Hnx : contract false nx den fin ok.
   Variable r : rel.
   Notation same := (rel_eval r).
-  Notation pkden := (pkden den).
-  Notation pkfin := (pkfin fin).
-  Notation pkok := (pkok ok).
+  Notation pkd := (pkden den).
+  Notation pkf := (pkfin fin).
+  Notation pko := (pkok ok).
 
   (* what is left for the later runs once the run [cur] is finished *)
   Definition rrest (cur : Z * bool) (p : pk St) : list Z :=
-    if snd cur then dropwhile (same (fst cur)) (pkden p) else pkden p.
+    if snd cur then dropwhile (same (fst cur)) (pkd p) else pkd p.
 
   Definition rden (k : option nat) (w : runcur * pk St) : list (list Z) :=
     map (take_opt k)
-        (spec_runs same (match fst w with Some c => rrest c (snd w) | None => pkden (snd w) end)).
-  Definition rfin (w : runcur * pk St) : Prop := pkfin (snd w).
-  Definition rok (w : runcur * pk St) : Prop := pkok (snd w).
+        (spec_runs same (match fst w with Some c => rrest c (snd w) | None => pkd (snd w) end)).
+  Definition rfin (w : runcur * pk St) : Prop := pkf (snd w).
+  Definition rok (w : runcur * pk St) : Prop := pko (snd w).
 
   Lemma iruns_inner_ok cur p o cur' p' ev :
-    pkok p -> iruns_inner nx r cur p = (o, (cur', p'), ev) ->
-    pkok p' /\ fst cur' = fst cur /\ (pkfin p -> pkfin p' /\ quiet false o) /\
+    pko p -> iruns_inner nx r cur p = (o, (cur', p'), ev) ->
+    pko p' /\ fst cur' = fst cur /\ (pkf p -> pkf p' /\ quiet false o) /\
     match o with
     | Item x => snd cur = true /\ snd cur' = true /\ same (fst cur) x = true /\
-                pkden p = x :: pkden p'
+                pkd p = x :: pkd p'
     | End => rrest cur' p' = rrest cur p /\ snd cur' = false /\
-             (snd cur = true -> takewhile (same (fst cur)) (pkden p) = [])
+             (snd cur = true -> takewhile (same (fst cur)) (pkd p) = [])
     | Err _ => False
     | Pan => False
     | Out => True
@@ -477,11 +477,11 @@ Section GenericRuns.
           -- intros Hfin. destruct (Hf1 Hfin) as [_ []].
           -- split; [reflexivity|]. split; [reflexivity|]. split; [exact Es|].
              rewrite <- Hd1. reflexivity.
-        * inv_ret Hc. simpl. split; [exact Hok1|]. split; [reflexivity|]. split.
+        * assert (Hx : pkd p1 = x :: den (pk_in p1)).
+          { unfold pkden. rewrite Hh1, Hc1. reflexivity. }
+          inv_ret Hc. simpl. split; [exact Hok1|]. split; [reflexivity|]. split.
           -- intros Hfin. destruct (Hf1 Hfin) as [_ []].
           -- unfold rrest; simpl. rewrite <- Hd1.
-             assert (Hx : pkden p1 = x :: den (pk_in p1)).
-             { unfold Contract.pkden. rewrite Hh1, Hc1. reflexivity. }
              rewrite Hx. simpl. rewrite Es. auto.
       + inv_ret Hc. simpl. destruct Hp1 as (Hd & Hd' & Hfin').
         split; [exact Hok1|]. split; [reflexivity|]. split; [auto|].
@@ -495,11 +495,11 @@ Section GenericRuns.
   Qed.
 
   Lemma iruns_drain_ok n : forall cur p o cur' p' ev,
-    pkok p -> iruns_drain nx n r cur p = (o, (cur', p'), ev) ->
-    pkok p' /\ (pkfin p -> pkfin p' /\ quiet false o) /\
+    pko p -> iruns_drain nx n r cur p = (o, (cur', p'), ev) ->
+    pko p' /\ (pkf p -> pkf p' /\ quiet false o) /\
     match o with
     | Item _ => False
-    | End => pkden p' = rrest cur p
+    | End => pkd p' = rrest cur p
     | Err _ => False
     | Pan => False
     | Out => True
@@ -530,11 +530,11 @@ Section GenericRuns.
   Proof. destruct k as [[|k]|]; simpl; intros H; congruence. Qed.
 
   Lemma iruns_take_ok n : forall k acc cur p o cur' p' ev,
-    pkok p -> snd cur = true -> iruns_take nx n r k acc cur p = (o, (cur', p'), ev) ->
-    pkok p' /\ fst cur' = fst cur /\
+    pko p -> snd cur = true -> iruns_take nx n r k acc cur p = (o, (cur', p'), ev) ->
+    pko p' /\ fst cur' = fst cur /\
     match o with
-    | Item l => l = acc ++ take_opt k (takewhile (same (fst cur)) (pkden p)) /\
-                rrest cur' p' = dropwhile (same (fst cur)) (pkden p)
+    | Item l => l = acc ++ take_opt k (takewhile (same (fst cur)) (pkd p)) /\
+                rrest cur' p' = dropwhile (same (fst cur)) (pkd p)
     | Out => True
     | _ => False
     end.
@@ -548,10 +548,10 @@ Section GenericRuns.
                   | End => (Item acc, (cur', p'), ev)
                   | _ => (pass o, (cur', p'), ev)
                   end) = (o, (cur', p'), ev) ->
-                 pkok p' /\ fst cur' = fst cur /\
+                 pko p' /\ fst cur' = fst cur /\
                  match o with
-                 | Item l => l = acc ++ take_opt k (takewhile (same (fst cur)) (pkden p)) /\
-                             rrest cur' p' = dropwhile (same (fst cur)) (pkden p)
+                 | Item l => l = acc ++ take_opt k (takewhile (same (fst cur)) (pkd p)) /\
+                             rrest cur' p' = dropwhile (same (fst cur)) (pkd p)
                  | Out => True
                  | _ => False
                  end).
@@ -587,16 +587,16 @@ Section GenericRuns.
   Lemma iruns_ok n k :
     contract false (fun w => iruns nx n r k (fst w) (snd w)) (rden k) rfin rok.
   Proof.
-    unfold contract, rden, rfin, rok. intros [cur p] o w' ev Hok Hc. simpl in *.
+    unfold contract, rok. intros [cur p] o w' ev Hok Hc. simpl in *.
     unfold iruns in Hc.
     assert (Hdr : exists o1 p1 ev1,
                match cur with
                | Some c => let '(o, (_, p'), ev) := iruns_drain nx n r c p in (o, p', ev)
                | None => (End, p, [])
                end = (o1 : res unit, p1, ev1) /\
-               pkok p1 /\ (pkfin p -> pkfin p1 /\ quiet false o1) /\
+               pko p1 /\ (pkf p -> pkf p1 /\ quiet false o1) /\
                match o1 with
-               | End => pkden p1 = match cur with Some c => rrest c p | None => pkden p end
+               | End => pkd p1 = match cur with Some c => rrest c p | None => pkd p end
                | Out => True
                | _ => False
                end).
@@ -610,23 +610,27 @@ Section GenericRuns.
     destruct o1 as [u| | | |]; try (destruct Hp1; fail).
     - destruct (ipk_peek nx p1) as [[o2 p2] ev2] eqn:E2.
       destruct (ipk_peek_ok false nx den fin ok Hnx _ _ _ _ Hok1 E2) as (Hok2 & Hf2 & Hp2).
-      rewrite <- Hp1.
+      assert (Hsh : forall o w', post false (rden k) rfin (None, p1) o w' ->
+                                 post false (rden k) rfin (cur, p) o w').
+      { intros o0 w0. apply post_shift. unfold rden. simpl. rewrite Hp1. reflexivity. }
       destruct o2 as [x| | | |].
       + destruct (iruns_take nx n r k [] (x, true) p2) as [[o3 [c3 p3]] ev3] eqn:E3.
         inv_ret Hc. simpl.
-        destruct (iruns_take_ok _ _ _ _ _ _ _ _ _ Hok2 eq_refl E3) as (Hok3 & Hc3 & Hp3).
+        destruct (iruns_take_ok n k [] (x, true) p2 _ _ _ _ Hok2 eq_refl E3) as (Hok3 & Hc3 & Hp3).
         split; [exact Hok3|]. split.
-        * destruct o; simpl; auto; try (destruct Hp3; fail).
+        * apply Hsh. unfold rden, rfin.
+          destruct o; simpl; auto; try (destruct Hp3; fail).
           destruct Hp3 as [Hl Hr]. simpl in Hl, Hr.
           destruct Hp2 as (Hd2 & Hh2 & Hc2). rewrite <- Hd2.
-          assert (Hx : pkden p2 = x :: den (pk_in p2)).
-          { unfold Contract.pkden. rewrite Hh2, Hc2. reflexivity. }
+          assert (Hx : pkd p2 = x :: den (pk_in p2)).
+          { unfold pkden. rewrite Hh2, Hc2. reflexivity. }
           rewrite Hx in *. rewrite spec_runs_cons. simpl map.
           simpl in Hl. rewrite rel_refl in Hl. simpl in Hr. rewrite rel_refl in Hr.
           rewrite Hl, Hr. reflexivity.
         * intros Hfin. destruct (Hf1 Hfin) as [Hfin1 _]. destruct (Hf2 Hfin1) as [_ []].
-      + inv_ret Hc. simpl. destruct Hp2 as (Hd & Hd' & Hfin2). rewrite Hd, Hd'. simpl.
-        split; [exact Hok2|]. split; auto.
+      + inv_ret Hc. simpl. destruct Hp2 as (Hd & Hd' & Hfin2).
+        split; [exact Hok2|]. split; [|auto].
+        apply (Hsh End (None, p2)). unfold rden, rfin. simpl. rewrite Hd, Hd'. simpl. auto.
       + destruct Hp2 as [Ha _]. discriminate.
       + destruct Hp2.
       + inv_ret Hc. simpl. split; [exact Hok2|]. split; [exact I|].
